@@ -39,7 +39,7 @@ def sym_chunk(args):
         #     the symref itself, import_refs with prune, interleaved with pack_refs and re-opening; model = (direct values, symrefs)
         H, M, S, X, RM = b"HEAD", b"refs/heads/m", b"refs/heads/s", b"refs/heads/x", b"refs/remotes/o/m"
         sops = [("set", H, A), ("set", H, B), ("set", M, A), ("set", M, B), ("set", S, B), ("cas", H, A, B), ("cas", S, B, A), ("add", H, A), ("add", S, A),
-                ("sym", H, S), ("sym", H, M), ("sym", S, M), ("sym", S, X), ("del", S), ("del", M), ("cad", M, A),
+                ("sym", H, S), ("sym", H, M), ("sym", S, M), ("sym", S, X), ("sym", S, S), ("del", S), ("del", M), ("cad", M, A),
                 ("import", {b"m": A}), ("import", {b"m": B}), ("import", {}), ("pack",), ("reopen",)]
 
         def run_sym(seq):
@@ -56,8 +56,16 @@ def sym_chunk(args):
             os.makedirs(os.path.join(p_, b"refs", b"heads"))
             c = DiskRefsContainer(p_)
             c.set_symbolic_ref(H, M)
+            def loops(nm):
+                seen = 0
+                while nm in syms and seen < 8:
+                    nm = syms[nm]
+                    seen += 1
+                return nm in syms
             for oi in seq:
                 op = sops[oi]
+                if op[0] in ("set", "cas", "add") and loops(op[1]):
+                    continue                     # a write THROUGH a symref loop: convention not fixed by the property, not exercised
                 try:
                     if op[0] == "set":
                         c[op[1]] = op[2]
@@ -352,7 +360,7 @@ def main():
     print(json.dumps({"name": "c16_backends", "function": "dulwich/refs.py check_ref_format + Dict/DiskRefsContainer, dulwich/reftable.py ReftableRefsContainer", "cases": cases, "exhaustive": True,
                       "bound": f"ref names: all strings <= {n} over a 13-symbol class alphabet; backends: every {step}th of all {len(ops)}^{K} operation sequences "
                       "over 4 names (one directory/file pair) incl. pack_refs and re-open; all 8^4 sequences of a reduced operation set on 'a' and 'a-2'; "
-                      "_check_no_packed_conflict on all packed sets <= 2 of 8 names; reftable backend on a quarter of the sampled sequences; 12 directed stale-peeled-value cases; symbolic refs: all sequences of 3 and a sample of 4 of 21 operations (writes / conditional writes through HEAD -> s -> m chains, dangling targets, symref deletes, import_refs with prune, pack_refs, re-open) against a (values, symrefs) model incl. get_symrefs() and raw reads" + ("; git check-ref-format on all strings <= 4 over 10 symbols" if tier == "thorough" else ""),
+                      "_check_no_packed_conflict on all packed sets <= 2 of 8 names; reftable backend on a quarter of the sampled sequences; 12 directed stale-peeled-value cases; symbolic refs: all sequences of 3 and a sample of 4 of 22 operations (incl. a self-looping symref and its retargeting) (writes / conditional writes through HEAD -> s -> m chains, dangling targets, symref deletes, import_refs with prune, pack_refs, re-open) against a (values, symrefs) model incl. get_symrefs() and raw reads" + ("; git check-ref-format on all strings <= 4 over 10 symbols" if tier == "thorough" else ""),
                       "failures": failures, "secs": round(time.time() - t0, 2)}))
 
 
